@@ -557,6 +557,10 @@ def run(report):
     items += [(_gen_shard, (env.sub_seed(report.seed, "C08", i), per, 3 if quick else 1, switches))
               for i in range(env.NPROC)]
     items += [(_effect_shard, (i, 8)) for i in range(8)]
+    # "never mistranslated": constructs the converter refuses in some forms only (assignment expressions in
+    # while conditions) are either refused or converted to something that behaves like the source
+    from ..gen import ww
+    items += [(ww.shard, (i, 8, "behaviour")) for i in range(8)]
     from .. import hosts as _hosts
     others = _hosts.available_other_hosts()
     if others:
